@@ -194,7 +194,9 @@ func intsEq(a, b []int) bool {
 // ---- generators ----------------------------------------------------------------------------
 
 // keyAlphabet is the separator-heavy string alphabet of DESIGN §4.4.
-var keyAlphabet = []string{"a", "b", "", "|", ",", "\x1f", "\x00NULL", " ", "a|b", "b|c", "c", "a,b", "a\x1fb", "A", "1"}
+var keyAlphabet = []string{"a", "b", "", "|", ",", "\x1f", "\x00NULL", " ", "a|b", "b|c", "c", "a,b", "a\x1fb", "A", "1",
+	// escape characters and spellings an escaping scheme might reserve
+	`\`, `\N`, `a\`, `\|`, `a\|b`, `\\N`, `\s`, `\0`}
 
 var plainKeys = []string{"a", "b", "c", "d", "e", "f"}
 
